@@ -275,7 +275,7 @@ class Ctx:
         return "new"
 
     def _write_replay(self, obj):
-        d = os.path.join(ROOT, "replays", self.prop)
+        d = os.path.join(ROOT, "replays" if os.path.realpath(REPO) == "/repo" else os.path.join(".work", "replays_experiments"), self.prop)
         os.makedirs(d, exist_ok=True)
         blob = json.dumps(obj, indent=1, sort_keys=True, default=str)
         h = hashlib.sha256(blob.encode()).hexdigest()[:12]
@@ -377,7 +377,8 @@ def write_evidence(ctx, violations_count):
         assumptions=ctx.assumptions or ctx.trusted, wall_s=round(time.time() - ctx.t0, 2),
         violations=violations_count,
     )
-    d = os.path.join(ROOT, "evidence")
+    # evidence/ describes runs against /repo itself; experiments on another tree (FAV_REPO=<worktree>) go to scratch
+    d = os.path.join(ROOT, "evidence") if os.path.realpath(REPO) == "/repo" else os.path.join(WORK, "evidence_experiments")
     os.makedirs(d, exist_ok=True)
     with open(os.path.join(d, f"{ctx.prop}.json"), "w") as f:
         json.dump(ev, f, indent=1, default=str)
